@@ -24,7 +24,7 @@ def scenarios(tier):
                  + [("RETRACT",), ("RECOVER",), ("AT", "ExcludeRegion", "disable")] + ([] if q else [("ESET0",)]),
                  max_states=100000 if q else 1000000),
         Scenario("c03-rel-mm", World, dict(prop="C03", monitors=mon, regions=["R"], emax=1, guard=no_relative_disable, repeat_modes=True),
-                 MOVES + [("REL",), ("ABS",), ("AT", "ExcludeRegion", "disable")],
+                 MOVES + [("REL",), ("ABS",), ("WIPE", "O2"), ("WIPE", "O1"), ("RECOVER",), ("AT", "ExcludeRegion", "disable")],
                  max_depth=6 if q else 9, max_states=3000000),
         Scenario("c03-inch", World, dict(prop="C03", monitors=mon, regions=["R"], emax=1),
                  [("TRAVEL", "O2"), ("TRAVEL", "I1"), ("TRAVEL", "H"), ("PRINT", "I2"), ("PRINT", "O1"),
